@@ -879,6 +879,9 @@ func ruleR16n(c *Ctx, r *Report) {
 			if baselineTypes[pp+"\t"+name] {
 				continue
 			}
+			if _, moved := movedTypeTarget(pp, name); moved {
+				continue // an audited type of the pinned tree in a new place
+			}
 			ms := types.NewMethodSet(types.NewPointer(tn.Type()))
 			for i := 0; i < ms.Len(); i++ {
 				switch ms.At(i).Obj().Name() {
